@@ -82,6 +82,11 @@ _W: "World | None" = None  # world of the execution in flight (read by the fakes
 # (a) E3 — fakes
 
 
+def _monotonic() -> float:
+    S.point("monotonic")
+    return _W.clk.now  # type: ignore[union-attr]
+
+
 class _NoThread:
     """Stands in for the reaper thread: never runs."""
 
@@ -233,7 +238,7 @@ def bound_pool_a():
     old_level = lg.level
     lg.setLevel(logging.CRITICAL + 10)
     POOL.threading = S.threading_shim(Thread=_NoThread)  # type: ignore[attr-defined]
-    POOL.time = types.SimpleNamespace(monotonic=lambda: _W.clk.now)  # type: ignore[attr-defined,union-attr]
+    POOL.time = types.SimpleNamespace(monotonic=_monotonic)  # type: ignore[attr-defined]
     POOL.atexit = types.SimpleNamespace(register=lambda f, *a, **k: f, unregister=lambda f: None)  # type: ignore[attr-defined]
     POOL.SubprocessTransport = _FakeTransport  # type: ignore[attr-defined,misc]
     try:
@@ -312,8 +317,6 @@ TRACE = S.trace_window(
     ("vgi_rpc/pool.py", "WorkerPool._evict_oldest_locked"),
     ("vgi_rpc/pool.py", "WorkerPool._reap_expired"),
     ("vgi_rpc/pool.py", "WorkerPool.close"),
-    ("vgi_rpc/pool.py", "WorkerPool.connect"),
-    ("vgi_rpc/pool.py", "_PooledTransport.close"),
 )
 
 
@@ -347,38 +350,56 @@ def oracle_a(ctx: Ctx, cfg: dict[str, Any], x: S.Exec, tier: str) -> Any:
 
 
 def configs_a(ctx: Ctx) -> list[dict[str, Any]]:
+    """Deterministic list of harness configurations.  ``trace``: line-level points inside the pool methods (else only
+    the lock / poll / spawn / close / clock operations are scheduling points)."""
     out: list[dict[str, Any]] = []
 
-    def add(mi: int, progs: list[list[str]], bound: int = 2, **kw: Any) -> None:
-        out.append({"max_idle": mi, "progs": progs, "bound": bound, **kw})
+    def add(mi: int, progs: list[list[str]], bound: int = 2, trace: bool = False, **kw: Any) -> None:
+        out.append({"max_idle": mi, "progs": progs, "bound": bound, "trace": trace, **kw})
 
     two = [[["A"], ["A"]], [["A", "A"], ["A"]], [["A"], ["B"]], [["A", "B"], ["A"]]]
+    three = [[["A"], ["A"], ["A"]], [["A"], ["A"], ["B"]]]
     if ctx.quick:
         for mi in (0, 1, 2):
             add(mi, two[0])
             add(mi, two[1])
+            add(mi, two[1], reap=True)
+            add(mi, two[0], close=True)
+            add(mi, two[1], die=0)
         add(1, two[2])
         add(1, two[3])
-        add(1, two[1], reap=True)
-        add(2, two[1], reap=True)
-        add(1, two[1], close=True)
-        add(2, two[0], close=True)
-        add(0, two[0], close=True)
-        add(1, two[1], die=0)
-        add(2, two[1], die=0)
-        add(1, [["A"], ["A"], ["A"]], bound=1)
+        add(1, two[3], reap=True)
+        add(2, two[1], close=True)
+        add(1, three[0])
+        add(1, three[1], bound=1)
+        add(2, three[0], bound=1, close=True)
+        # line-granular runs (bound 1): every single preemption at every source line of the pool methods
+        add(1, two[0], bound=1, trace=True)
+        add(1, two[1], bound=1, trace=True)
+        add(0, two[0], bound=1, trace=True)
+        add(1, two[0], bound=1, trace=True, close=True)
+        add(2, two[1], bound=1, trace=True, reap=True)
         return out
     for mi in (0, 1, 2):
         for p in two:
-            add(mi, p)
+            add(mi, p, bound=3)
             add(mi, p, reap=True)
             add(mi, p, close=True)
             add(mi, p, die=0)
         add(mi, two[1], reap=True, close=True)
         add(mi, two[1], close=True, die=0)
-        add(mi, [["A"], ["A"], ["A"]])
-        add(mi, [["A"], ["A"], ["B"]])
+        for p in three:
+            add(mi, p)
+            add(mi, p, bound=1, close=True, reap=True)
         add(mi, [["A", "A"], ["A"], ["A"]], bound=1, close=True)
+        # line-granular
+        add(mi, two[0], bound=2, trace=True)
+        add(mi, two[2], bound=2, trace=True)
+        add(mi, two[0], bound=1, trace=True, close=True)
+        add(mi, two[1], bound=1, trace=True)
+        add(mi, two[1], bound=1, trace=True, reap=True)
+        add(mi, two[1], bound=1, trace=True, die=0)
+        add(mi, two[3], bound=1, trace=True, close=True)
     return out
 
 
@@ -389,7 +410,8 @@ def run_a(ctx: Ctx) -> None:
                 continue
             st = S.explore(
                 ctx, make_setup(cfg), lambda x, cfg=cfg: oracle_a(ctx, cfg, x, ctx.tier), bound=cfg["bound"],
-                label="a:" + json.dumps(cfg, sort_keys=True), trace=TRACE, env_cost=1 if ctx.quick else 0,
+                label="a:" + json.dumps(cfg, sort_keys=True), trace=TRACE if cfg["trace"] else None,
+                env_cost=1 if ctx.quick else 0,
             )
             ctx.extra["a_schedules"] += st["schedules"]
             ctx.extra["a_configs"] += 1
@@ -400,14 +422,312 @@ def run_a(ctx: Ctx) -> None:
                 ctx.cap(f"bound {cfg['bound']} not completed for {cfg}")
 
 
+# ======================================================================================
+# (b) E1 — borrower scripts against a real RpcServer
+
+
+class Boom(Exception):
+    """Raised by the borrower's on_log callback / body (a client-side exception)."""
+
+
+_B: dict[str, Any] = {"workers": [], "server": None}
+
+
+class _MemProc:
+    def __init__(self, wid: int, args: list[str], sth: mem.ServerThread) -> None:
+        self.pid = 7000 + wid
+        self.args = list(args)
+        self.returncode: int | None = None
+        self._sth = sth
+
+    def poll(self) -> int | None:
+        if self._sth.alive():
+            return None
+        self.returncode = 0
+        return 0
+
+
+class _MemWorker:
+    """SubprocessTransport stand-in of part (b): the 'process' is a thread running the real RpcServer.serve on the
+    server end of an in-memory pipe; stdin/stdout are the client end."""
+
+    def __init__(self, cmd: list[str], *, stderr: Any = None, stderr_logger: Any = None) -> None:
+        self.ct, self.sv = mem.make_mem_pair()
+        self.sth = mem.ServerThread(_B["server"], self.sv).start()
+        self.wid = len(_B["workers"])
+        self.proc = _MemProc(self.wid, list(cmd), self.sth)
+        self.closed = False
+        self.stuck = False
+        _B["workers"].append(self)
+
+    @property
+    def reader(self) -> Any:
+        return self.ct.reader
+
+    @property
+    def writer(self) -> Any:
+        return self.ct.writer
+
+    def close(self) -> None:
+        if self.closed:
+            return
+        self.closed = True
+        if not self.sth.stop(self.ct, timeout=20):
+            self.stuck = True
+
+
+@contextlib.contextmanager
+def bound_pool_b():
+    import vgi_rpc.pool as POOL
+    from vgi_rpc.rpc import RpcServer
+
+    saved = POOL.SubprocessTransport
+    lg = logging.getLogger("vgi_rpc.pool")
+    old_level = lg.level
+    lg.setLevel(logging.CRITICAL + 10)
+    POOL.SubprocessTransport = _MemWorker  # type: ignore[misc]
+    _B["server"] = RpcServer(prog.ScriptSvc, prog.ScriptImpl())
+    try:
+        yield POOL
+    finally:
+        POOL.SubprocessTransport = saved  # type: ignore[misc]
+        lg.setLevel(old_level)
+
+
+def _log(i: int) -> list[Any]:
+    return ["log", "INFO", f"m{i}", {}]
+
+
+def scenarios(ctx: Ctx) -> list[dict[str, Any]]:
+    """Borrower-1 scripts (without the on_log-raise position, which is enumerated per script from the number of
+    log messages the clean run delivered)."""
+    out: list[dict[str, Any]] = []
+    nlogs = (0, 1, 2) if ctx.quick else (0, 1, 2, 3)
+    # unary
+    for m in ("unary", "unary_none"):
+        for n in nlogs:
+            for end in ("ret", "raise"):
+                acts = [_log(i) for i in range(n)] + ([["ret", 5]] if end == "ret" else [["raise", "ValueError", "bad"]])
+                out.append({"fam": "unary", "method": m, "script": {"acts": acts}, "consume": "all", "inputs": []})
+    # producers: 2-3 emitting steps, optional logs in init and before each emit
+    shapes = [(2, 0, 0), (2, 1, 0), (2, 0, 1), (2, 1, 1)] if ctx.quick else [(2, 0, 0), (2, 1, 0), (2, 0, 1), (2, 1, 1), (3, 1, 1), (3, 0, 2)]
+    takes = (0, 1, 2) if ctx.quick else (0, 1, 2, 3)
+    for m in ("produce", "produce_h"):
+        for nsteps, li, ls in shapes:
+            steps = [[_log(10 * k + j) for j in range(ls)] + [["emit", 1, None]] for k in range(nsteps)] + [[["finish"]]]
+            sc = {"init": [_log(90 + j) for j in range(li)], "hdr": 3, "steps": steps, "out": "is"}
+            out.append({"fam": "producer", "method": m, "script": sc, "consume": "all", "inputs": []})
+            for k in takes:
+                if k > nsteps:
+                    continue
+                for fin in ("close", "cancel", "drop"):
+                    out.append({"fam": "producer", "method": m, "script": sc, "consume": ["take", k, fin], "inputs": []})
+            # server-side error in the second step
+            sc2 = dict(sc, steps=[steps[0], [_log(50)] * ls + [["raise", "BoomError", "srv"]]])
+            out.append({"fam": "producer", "method": m, "script": sc2, "consume": "all", "inputs": []})
+    # exchanges: 2 inputs
+    for m in ("exch", "exch_h"):
+        for _, li, ls in shapes[:4]:
+            steps = [[_log(10 * k + j) for j in range(ls)] + [["echo", 2, None]] for k in range(2)]
+            sc = {"init": [_log(90 + j) for j in range(li)], "hdr": 4, "steps": steps}
+            inputs = [[1, 2], [3]]
+            out.append({"fam": "exchange", "method": m, "script": sc, "consume": "all", "inputs": inputs})
+            for k in (0, 1, 2):
+                for fin in ("close", "cancel", "drop"):
+                    out.append({"fam": "exchange", "method": m, "script": sc, "consume": ["take", k, fin], "inputs": inputs})
+            sc2 = dict(sc, steps=[steps[0], [_log(50)] * ls + [["raise", "BoomError", "srv"]]])
+            out.append({"fam": "exchange", "method": m, "script": sc2, "consume": "all", "inputs": inputs})
+    return out
+
+
+def drive(proxy: Any, sc: dict[str, Any], st: dict[str, Any]) -> None:
+    """Borrower 1's body.  ``st['phase']`` names the client operation in flight (for the finding key)."""
+    from vgi_rpc.rpc import RpcError
+
+    m = sc["method"]
+    s = json.dumps(sc["script"])
+    tr = st["trace"]
+    st["phase"] = "unary" if m.startswith("unary") else "init"
+    try:
+        if m.startswith("unary"):
+            r = proxy.unary(script=s, x=7) if m == "unary" else proxy.unary_none(script=s)
+            tr.append(["result", r])
+            return
+        sess = getattr(proxy, m)(script=s)
+    except RpcError as e:
+        tr.append(["error", e.error_type])
+        return
+    take, fin = (None, "all") if sc["consume"] == "all" else (sc["consume"][1], sc["consume"][2])
+    n = 0
+    try:
+        if m.startswith("produce"):
+            while take is None or n < take:
+                st["phase"] = "tick"
+                try:
+                    ab = sess.tick()
+                except StopIteration:
+                    tr.append(["end"])
+                    return
+                tr.append(["batch", ab.batch.num_rows])
+                n += 1
+        else:
+            for spec in sc["inputs"]:
+                if take is not None and n >= take:
+                    break
+                st["phase"] = "exchange"
+                ab = sess.exchange(prog.input_batch(spec))
+                tr.append(["batch", ab.batch.num_rows])
+                n += 1
+            if take is None:
+                fin = "close"
+    except RpcError as e:
+        tr.append(["error", e.error_type])
+        return
+    if fin == "close":
+        st["phase"] = "close-drain"
+        sess.close()
+        tr.append(["closed"])
+    elif fin == "cancel":
+        st["phase"] = "cancel-drain"
+        sess.cancel()
+        tr.append(["cancelled"])
+    else:
+        st["phase"] = "abandon"
+        tr.append(["dropped"])
+        if sc.get("body_raises"):
+            raise Boom("body")
+
+
+def run_case_b(ctx: Ctx, sc: dict[str, Any], raise_at: int | None, swallow: bool) -> dict[str, Any]:
+    """One history: borrower 1 runs *sc* (its on_log raising at log index *raise_at*), then borrower 2 probes."""
+    import vgi_rpc.pool as POOL
+
+    _B["workers"] = []
+    pool = POOL.WorkerPool(max_idle=2, idle_timeout=600.0)
+    st: dict[str, Any] = {"phase": "-", "trace": [], "nlogs": 0, "boom": None}
+    res: dict[str, Any] = {"nlogs": 0, "boom": None, "probe": None, "reused": None, "phase": None}
+
+    def on_log1(msg: Any) -> None:
+        i = st["nlogs"]
+        st["nlogs"] += 1
+        st["trace"].append(["log", msg.message])
+        if raise_at is not None and i == raise_at:
+            st["boom"] = st["phase"]
+            raise Boom(f"on_log@{i}")
+
+    try:
+        w1 = None
+        try:
+            with pool.connect(prog.ScriptSvc, ["w"], on_log=on_log1) as p1:
+                w1 = p1._transport._inner
+                try:
+                    drive(p1, sc, st)
+                except Boom:
+                    if not swallow:
+                        raise
+        except Boom:
+            pass
+        except Exception as e:  # noqa: BLE001 - borrower 1 misbehaving is its own business; record only
+            st["trace"].append(["b1-exception", type(e).__name__])
+        res["nlogs"] = st["nlogs"]
+        res["boom"] = st["boom"]
+        res["phase"] = st["boom"] or st["phase"]
+        res["trace1"] = st["trace"]
+        logs2: list[Any] = []
+        probe: list[Any] = []
+        try:
+            with pool.connect(prog.ScriptSvc, ["w"], on_log=lambda m: logs2.append(m.message)) as p2:
+                w2 = p2._transport._inner
+                res["reused"] = w2 is w1
+                probe.append(p2.echo(n=4242))
+                probe.append(p2.unary(script=json.dumps({"acts": [["ret", 17]]}), x=1))
+        except BaseException as e:  # noqa: BLE001
+            probe.append(f"EXC:{type(e).__name__}:{str(e)[:120]}")
+        res["probe"] = probe
+        res["logs2"] = logs2
+        # a third borrower: the worker must still be at a boundary after the probe
+        try:
+            with pool.connect(prog.ScriptSvc, ["w"]) as p3:
+                res["probe3"] = p3.echo(n=99)
+        except BaseException as e:  # noqa: BLE001
+            res["probe3"] = f"EXC:{type(e).__name__}"
+    finally:
+        pool.close()
+        for w in _B["workers"]:
+            w.close()
+        res["stuck"] = any(w.stuck for w in _B["workers"])
+        res["nworkers"] = len(_B["workers"])
+    return res
+
+
+def judge_b(ctx: Ctx, sc: dict[str, Any], raise_at: int | None, swallow: bool, res: dict[str, Any]) -> None:
+    case = {"part": "b", "sc": sc, "raise_at": raise_at, "swallow": swallow}
+    cons = sc["consume"] if sc["consume"] == "all" else f"take{sc['consume'][1]}-{sc['consume'][2]}"
+    how = "clean" if res["boom"] is None else f"on_log-raises@{res['boom']}"
+    if res["boom"] is None and sc["consume"] != "all" and sc["consume"][2] == "drop":
+        how = "abandoned"
+    klass = f"{sc['fam']}:{how}"
+    bad = None
+    if res["probe"] != [4242, 17]:
+        bad = f"the next borrower's probes returned {res['probe']!r} instead of [4242, 17]"
+    elif res["logs2"]:
+        bad = f"the next borrower received log messages {res['logs2']!r} that belong to the previous borrower"
+    elif res.get("probe3") != 99:
+        bad = f"the third borrower's probe returned {res.get('probe3')!r} instead of 99"
+    if bad:
+        ctx.fail(
+            f"b:dirty-reuse:{klass}",
+            f"{bad}; borrower 1 ran {sc['method']} consume={cons} raise_at={raise_at} (on_log raised during {res['boom']}), "
+            f"worker re-handed={res['reused']}; borrower-1 trace {res.get('trace1')!r}",
+            case,
+        )
+    if res["stuck"]:
+        ctx.fail(f"b:worker-did-not-exit:{klass}", f"a worker thread did not leave serve() after its transport was closed ({sc['method']} {cons})", case)
+    ctx.case(
+        sample={"b": sc["method"], "consume": cons, "raise_at": raise_at, "reused": res["reused"], "probe": res["probe"]}
+        if ctx.extra["b_cases"] in (0, 40, 400)
+        else None,
+        nontrivial=("b", klass, cons, bool(res["reused"])),
+        outcome=("b", klass, cons, res["reused"], repr(res["probe"]), res["nworkers"]),
+    )
+    ctx.extra["b_cases"] += 1
+    ctx.extra["b_reused"] += 1 if res["reused"] else 0
+    ctx.extra["b_discarded"] += 0 if res["reused"] else 1
+
+
+def run_b(ctx: Ctx) -> None:
+    with bound_pool_b():
+        for sc in scenarios(ctx):
+            if not ctx.mine():
+                continue
+            res = run_case_b(ctx, sc, None, False)
+            judge_b(ctx, sc, None, False, res)
+            n = res["nlogs"]
+            for j in range(n):
+                for swallow in (False, True):
+                    r = run_case_b(ctx, sc, j, swallow)
+                    judge_b(ctx, sc, j, swallow, r)
+            if sc["consume"] != "all" and sc["consume"][2] == "drop":
+                sc2 = dict(sc, body_raises=True)
+                judge_b(ctx, sc2, None, False, run_case_b(ctx, sc2, None, False))
+
+
 def run(ctx: Ctx) -> None:
-    ctx.extra.update({"a_schedules": 0, "a_configs": 0, "a_deadlocks": 0, "max_choice_points": 0, "max_steps": 0})
+    ctx.extra.update({"a_schedules": 0, "a_configs": 0, "a_deadlocks": 0, "max_choice_points": 0, "max_steps": 0,
+                      "b_cases": 0, "b_reused": 0, "b_discarded": 0})
     run_a(ctx)
+    run_b(ctx)
 
 
 def replay(ctx: Ctx, case: dict[str, Any]) -> None:
     if case.get("part") == "a":
         cfg = case["cfg"]
         with bound_pool_a():
-            x = S.run_one(make_setup(cfg), case["choices"], None, trace=TRACE, env_cost=1 if case.get("tier", "quick") == "quick" else 0)
+            x = S.run_one(make_setup(cfg), case["choices"], None, trace=TRACE if cfg.get("trace") else None,
+                          env_cost=1 if case.get("tier", "quick") == "quick" else 0)
             oracle_a(ctx, cfg, x, case.get("tier", "quick"))
+    else:
+        ctx.extra.update({"b_cases": 0, "b_reused": 0, "b_discarded": 0})
+        with bound_pool_b():
+            res = run_case_b(ctx, case["sc"], case["raise_at"], case["swallow"])
+            judge_b(ctx, case["sc"], case["raise_at"], case["swallow"], res)
